@@ -329,12 +329,18 @@ class Check:
         recorded in the evidence, it is not a violation."""
         if not modules:
             return
+        spent = getattr(self, "_coqchk_spent", 0.0)
+        budget = float(os.environ.get("VERIF_COQCHK_BUDGET", "1200"))
+        if spent >= budget:
+            self.coverage.setdefault("coqchk", []).append({"modules": modules, "result": "skipped: per-run coqchk budget of %ds used up" % budget})
+            return
         cmd = ["coqchk", "-silent", "-o", "-Q", COQLIB, "VLib", "-R", wd, self.pid]
         for d in extra_dirs:
             cmd += ["-Q", d[0], d[1]]
         cmd += ["%s.%s" % (self.pid, m) for m in modules]
         t1 = time.time()
         rc, out, err = sh(cmd, timeout=int(os.environ.get("VERIF_COQCHK_TIMEOUT", "900")), cwd=wd)
+        self._coqchk_spent = spent + (time.time() - t1)
         rep = self.coverage.setdefault("coqchk", [])
         entry = {"modules": modules, "rc": rc, "seconds": round(time.time() - t1, 1)}
         if rc == 124:
